@@ -2,8 +2,11 @@
    Statements only (proofs: Proofs/C13P.v), over Model/ModelSM.v: every history of add_variable (with / without /
    clashing ids), add_cmeta_id, transfer_cmeta_id, remove_variable, equation edits and queries, of any length.
    Calls are made with live variables of this model; handing the model a stale variable is finding F16
-   (C13_foreign_variable_refuted).  Loader transfer and convert_variable(move_annotations) are covered by the
-   harness oracle on the implementation (and by C06 / C01 models), not by these theorems. *)
+   (C13_foreign_variable_refuted).  The LOADER's connection-time transfer is proved over Model/Loader.v at the end of this
+   file (C13_load_ids: ids pairwise distinct, every declared id carried by exactly one variable -- the variable its
+   declaring variable is directly connected to when that connection changes no unit, the declaring variable otherwise;
+   C13_load_both_ids_rejected).  convert_variable(move_annotations) is covered by the harness oracle on the implementation
+   (conversion stratum) and by the C06 model's correspondence (which compares cmeta ids after every conversion). *)
 From Coq Require Import List ZArith QArith Bool.
 From Verif Require Import Sexp ModelSM C08P C13P.
 Import ListNotations.
@@ -53,3 +56,30 @@ Theorem C13_foreign_variable_refuted :
   exists s v, CmetaOk s /\ ~ CmetaOk (fst (step [] s (ORemoveVar v))).
 Proof. exact foreign_variable_refuted. Qed.
 Print Assumptions C13_foreign_variable_refuted.
+
+(* ---- loading (over Model/Loader.v, the model of Parser.parse; proofs: Proofs/C13LoadP.v) ------------------------
+   The import stands here, not at the top, so that the loader's names cannot shadow anything used above.
+   decl vars v      the cmeta id the document declares on variable v;
+   carrier vars m v where that id lives after loading: the variable v is directly connected to, when v is the target
+                    of a connection without unit change (transfer_cmeta_id(source=target, target=source) moves an id
+                    ONE hop, not to the end of the chain); v itself otherwise.
+   For every loaded document: the ids of the flat variables are pairwise distinct; every declared id is carried by
+   its carrier; every id of the flat model is a declared id sitting on its carrier -- hence each id of the document
+   belongs to exactly one variable of the model. *)
+From Verif Require Import Loader LoaderP C17P C13LoadP.
+
+Theorem C13_load_ids : forall d f, load d = OK f ->
+  let m := rev (f_map f) in
+  ids_distinct (f_cmeta f) /\
+  (forall v k, decl (f_vars f) v = Some k -> nth (carrier (f_vars f) m v) (f_cmeta f) None = Some k) /\
+  (forall j k, nth j (f_cmeta f) None = Some k -> exists v, decl (f_vars f) v = Some k /\ carrier (f_vars f) m v = j).
+Proof. exact load_ids. Qed.
+Print Assumptions C13_load_ids.
+
+(* both ends of a connection without unit change carry an id (the source end being a pure source): refused *)
+Theorem C13_load_both_ids_rejected : forall d,
+  (exists s t, In (s, t) (st_work d) /\ one_b (st_vars d) s t = true /\ decl (st_vars d) t <> None /\
+               decl (st_vars d) s <> None /\ nth s (asg (init_cs (st_vars d))) None <> None) ->
+  exists e, load d = Error e.
+Proof. exact load_both_ids_rejected. Qed.
+Print Assumptions C13_load_both_ids_rejected.
